@@ -5,6 +5,8 @@ import GoldilocksVerif.Gen.Avx512Mat
 import GoldilocksVerif.Lemmas.Avx512Nat
 import GoldilocksVerif.Lemmas.Avx2MatF
 set_option linter.unusedSimpArgs false
+set_option linter.unusedTactic false
+set_option linter.unreachableTactic false
 namespace GoldilocksVerif
 open Gen.Avx512 Gen.Avx512Mat Gen.VecConsts Lane
 
@@ -21,13 +23,41 @@ theorem lo_get (a : V8) : (a.lo.get 0 = a.get 0 ∧ a.lo.get 1 = a.get 1 ∧ a.l
     (a.hi.get 0 = a.get 4 ∧ a.hi.get 1 = a.get 5 ∧ a.hi.get 2 = a.get 6 ∧ a.hi.get 3 = a.get 7) :=
   ⟨⟨rfl, rfl, rfl, rfl⟩, ⟨rfl, rfl, rfl, rfl⟩⟩
 
+/-! #### coefficient registers
+
+  The sparse kernels fill three registers with `b[4j .. 4j+3]` in both halves (one half per interleaved state).
+  However they are filled (`_mm512_set4_epi64` of the four elements, `_mm512_broadcast_i64x4` of an unaligned
+  256-bit load, …), unfolding the fill intrinsics gives the same register of reads, named `coef8 b (4j)` here;
+  the proofs below only use what that register holds at a lane (`coef8_get`). -/
+
+/-- the register holding `b[off .. off+3]` in both halves -/
+def coef8 (b : Region) (off : Nat) : V8 :=
+  ⟨b off, b (off + 1), b (off + 2), b (off + 3), b off, b (off + 1), b (off + 2), b (off + 3)⟩
+
+theorem coef8_get (b : Region) (off : Nat) (i : Fin 8) : (coef8 b off).get i = b (off + i.val % 4) := by
+  match i with
+  | 0 => rfl | 1 => rfl | 2 => rfl | 3 => rfl | 4 => rfl | 5 => rfl | 6 => rfl | 7 => rfl
+
+theorem coef8_0 (b : Region) : (⟨b 0, b 1, b 2, b 3, b 0, b 1, b 2, b 3⟩ : V8) = coef8 b 0 := rfl
+theorem coef8_4 (b : Region) : (⟨b 4, b 5, b 6, b 7, b 4, b 5, b 6, b 7⟩ : V8) = coef8 b 4 := rfl
+theorem coef8_8 (b : Region) : (⟨b 8, b 9, b 10, b 11, b 8, b 9, b 10, b 11⟩ : V8) = coef8 b 8 := rfl
+
+/-- bring the three coefficient registers of a sparse kernel (already unfolded in the goal) to `coef8 b (4j)`:
+  every modelled way of filling a register from memory / from elements is unfolded to the register of reads -/
+macro "coef_norm" : tactic => `(tactic| (
+  simp only [Avx512.set4_epi64, Avx512.set_epi64, Avx512.broadcast_i64x4, Avx512.load, Avx2.load, Avx2.set_epi64x,
+    Region.shift_apply, Nat.reduceAdd]
+  simp only [coef8_0, coef8_4, coef8_8]))
+
 /-- spmv_avx512_4x12 on one lane: the coefficient index is the lane index modulo 4 -/
 theorem spmv512_lane (a0 a1 a2 : V8) (b : Region) (i : Fin 8) :
     den ((spmv_avx512_4x12 a0 a1 a2 b).get i) =
-      den (a0.get i) * den ((Avx512.set4_epi64 (b 3) (b 2) (b 1) (b 0)).get i) +
-      den (a1.get i) * den ((Avx512.set4_epi64 (b 7) (b 6) (b 5) (b 4)).get i) +
-      den (a2.get i) * den ((Avx512.set4_epi64 (b 11) (b 10) (b 9) (b 8)).get i) := by
-  simp only [spmv_avx512_4x12, den_add_avx512, den_mult_avx512]
+      den (a0.get i) * den (b (i.val % 4)) + den (a1.get i) * den (b (4 + i.val % 4)) +
+        den (a2.get i) * den (b (8 + i.val % 4)) := by
+  simp only [spmv_avx512_4x12]
+  coef_norm
+  simp only [den_add_avx512, den_mult_avx512, coef8_get, Nat.zero_add]
+  try ring
 
 /-- spmv_avx512_4x12 per interleaved state = the AVX2 statement on each half -/
 theorem spmv512_den (a0 a1 a2 : V8) (b : Region) (i : Fin 4) :
@@ -73,29 +103,35 @@ theorem set2_get (c : Region) (x y : BitVec 64) :
   have h1 : k ≠ 1 := by omega
   simp [Region.set, h0, h1]
 
+theorem store512_at (r : Region) (v : V8) :
+    ((Avx512.store r v) 0 = v.l0 ∧ (Avx512.store r v) 1 = v.l1 ∧ (Avx512.store r v) 2 = v.l2 ∧ (Avx512.store r v) 3 = v.l3) ∧
+    ((Avx512.store r v) 4 = v.l4 ∧ (Avx512.store r v) 5 = v.l5 ∧ (Avx512.store r v) 6 = v.l6 ∧ (Avx512.store r v) 7 = v.l7) :=
+  ⟨⟨rfl, rfl, rfl, rfl⟩, ⟨rfl, rfl, rfl, rfl⟩⟩
+
+/-- dot_avx512: the stored lanes of the sparse product are summed per half with scalar additions (any association /
+  order of the four addends of a half) and written to c[0], c[1] -/
 theorem dot512_den (c : Region) (a0 a1 a2 : V8) (b : Region) :
     den ((dot_avx512 c a0 a1 a2 b) 0) = dot12 a0.lo a1.lo a2.lo b 0 ∧
     den ((dot_avx512 c a0 a1 a2 b) 1) = dot12 a0.hi a1.hi a2.hi b 0 ∧
     ∀ k, 2 ≤ k → (dot_avx512 c a0 a1 a2 b) k = c k := by
-  have hl := row_sum_eq a0.lo a1.lo a2.lo b (spmv_avx512_4x12 a0 a1 a2 b).lo (fun i => (spmv512_den a0 a1 a2 b i).1)
-  have hh := row_sum_eq a0.hi a1.hi a2.hi b (spmv_avx512_4x12 a0 a1 a2 b).hi (fun i => (spmv512_den a0 a1 a2 b i).2)
-  simp only [V8.lo, V8.hi] at hl hh
-  obtain ⟨s0, s1, s2, s3, s4, s5, s6, s7⟩ := store512_get Region.zero (spmv_avx512_4x12 a0 a1 a2 b)
-  have e : dot_avx512 c a0 a1 a2 b = Region.set (Region.set c 0
-      (Gen.Scalar.add__rEE (Gen.Scalar.add__rEE (spmv_avx512_4x12 a0 a1 a2 b).l0 (spmv_avx512_4x12 a0 a1 a2 b).l1)
-        (Gen.Scalar.add__rEE (spmv_avx512_4x12 a0 a1 a2 b).l2 (spmv_avx512_4x12 a0 a1 a2 b).l3)))
-      1 (Gen.Scalar.add__rEE (Gen.Scalar.add__rEE (spmv_avx512_4x12 a0 a1 a2 b).l4 (spmv_avx512_4x12 a0 a1 a2 b).l5)
-        (Gen.Scalar.add__rEE (spmv_avx512_4x12 a0 a1 a2 b).l6 (spmv_avx512_4x12 a0 a1 a2 b).l7)) := by
-    simp only [dot_avx512, store_avx512, s0, s1, s2, s3, s4, s5, s6, s7]
-  obtain ⟨g0, g1, g2⟩ := set2_get c
-      (Gen.Scalar.add__rEE (Gen.Scalar.add__rEE (spmv_avx512_4x12 a0 a1 a2 b).l0 (spmv_avx512_4x12 a0 a1 a2 b).l1)
-        (Gen.Scalar.add__rEE (spmv_avx512_4x12 a0 a1 a2 b).l2 (spmv_avx512_4x12 a0 a1 a2 b).l3))
-      (Gen.Scalar.add__rEE (Gen.Scalar.add__rEE (spmv_avx512_4x12 a0 a1 a2 b).l4 (spmv_avx512_4x12 a0 a1 a2 b).l5)
-        (Gen.Scalar.add__rEE (spmv_avx512_4x12 a0 a1 a2 b).l6 (spmv_avx512_4x12 a0 a1 a2 b).l7))
-  rw [e]
-  refine ⟨?_, ?_, g2⟩
-  · rw [g0]; simp only [den_add_r]; exact hl
-  · rw [g1]; simp only [den_add_r]; exact hh
+  have hl : den (spmv_avx512_4x12 a0 a1 a2 b).l0 + den (spmv_avx512_4x12 a0 a1 a2 b).l1 +
+      (den (spmv_avx512_4x12 a0 a1 a2 b).l2 + den (spmv_avx512_4x12 a0 a1 a2 b).l3) = dot12 a0.lo a1.lo a2.lo b 0 :=
+    row_sum_eq a0.lo a1.lo a2.lo b (spmv_avx512_4x12 a0 a1 a2 b).lo (fun i => (spmv512_den a0 a1 a2 b i).1)
+  have hh : den (spmv_avx512_4x12 a0 a1 a2 b).l4 + den (spmv_avx512_4x12 a0 a1 a2 b).l5 +
+      (den (spmv_avx512_4x12 a0 a1 a2 b).l6 + den (spmv_avx512_4x12 a0 a1 a2 b).l7) = dot12 a0.hi a1.hi a2.hi b 0 :=
+    row_sum_eq a0.hi a1.hi a2.hi b (spmv_avx512_4x12 a0 a1 a2 b).hi (fun i => (spmv512_den a0 a1 a2 b i).2)
+  have n01 : (0 : Nat) ≠ 1 := by decide
+  refine ⟨?_, ?_, ?_⟩
+  · simp only [dot_avx512, store_avx512, Region.set_apply, n01, if_true, if_false, den_add_r,
+      (store512_at _ _).1.1, (store512_at _ _).1.2.1, (store512_at _ _).1.2.2.1, (store512_at _ _).1.2.2.2]
+    first | exact hl | (rw [← hl]; ring)
+  · simp only [dot_avx512, store_avx512, Region.set_apply, if_true, den_add_r,
+      (store512_at _ _).2.1, (store512_at _ _).2.2.1, (store512_at _ _).2.2.2.1, (store512_at _ _).2.2.2.2]
+    first | exact hh | (rw [← hh]; ring)
+  · intro k hk
+    have h0 : k ≠ 0 := by omega
+    have h1 : k ≠ 1 := by omega
+    simp only [dot_avx512, Region.set_apply, h0, h1, if_false]
 
 /-! #### the permutex2var / unpack network is the 4x4 transpose in both halves -/
 
@@ -114,13 +150,9 @@ theorem transpose8 (r0 r1 r2 r3 : V8) :
       ⟨r0.l3, r1.l3, r2.l3, r3.l3, r0.l7, r1.l7, r2.l7, r3.l7⟩ := by
   refine ⟨rfl, rfl, rfl, rfl⟩
 
-theorem add4_den (c0 c1 c2 c3 : V8) (i : Fin 8) :
-    den ((add_avx512__wWW (add_avx512__wWW c0 c1) (add_avx512__wWW c2 c3)).get i) =
-      den (c0.get i) + den (c1.get i) + (den (c2.get i) + den (c3.get i)) := by
-  rw [den_add_avx512, den_add_avx512, den_add_avx512]
-
-/-- generic: four row registers whose lanes are the spmv terms, transposed and summed, give the 4 row dot products
-    in each half -/
+/-- generic: four row registers whose lanes are the spmv terms, transposed and summed (the result register `R` is
+    only known through the field value of each lane: any association / order of the three additions), give the 4 row
+    dot products in each half -/
 theorem rows_sum (a0 a1 a2 : V8) (M : Region) (r0 r1 r2 r3 : V8)
     (h0 : ∀ i : Fin 4,
       den (r0.lo.get i) = den (a0.lo.get i) * den (M i.val) + den (a1.lo.get i) * den (M (4 + i.val)) + den (a2.lo.get i) * den (M (8 + i.val)) ∧
@@ -134,15 +166,15 @@ theorem rows_sum (a0 a1 a2 : V8) (M : Region) (r0 r1 r2 r3 : V8)
     (h3 : ∀ i : Fin 4,
       den (r3.lo.get i) = den (a0.lo.get i) * den (M (36 + i.val)) + den (a1.lo.get i) * den (M (36 + (4 + i.val))) + den (a2.lo.get i) * den (M (36 + (8 + i.val))) ∧
       den (r3.hi.get i) = den (a0.hi.get i) * den (M (36 + i.val)) + den (a1.hi.get i) * den (M (36 + (4 + i.val))) + den (a2.hi.get i) * den (M (36 + (8 + i.val))))
+    (R : V8)
+    (hR : ∀ j : Fin 8, den (R.get j) =
+      den ((⟨r0.l0, r1.l0, r2.l0, r3.l0, r0.l4, r1.l4, r2.l4, r3.l4⟩ : V8).get j) +
+      den ((⟨r0.l1, r1.l1, r2.l1, r3.l1, r0.l5, r1.l5, r2.l5, r3.l5⟩ : V8).get j) +
+      (den ((⟨r0.l2, r1.l2, r2.l2, r3.l2, r0.l6, r1.l6, r2.l6, r3.l6⟩ : V8).get j) +
+       den ((⟨r0.l3, r1.l3, r2.l3, r3.l3, r0.l7, r1.l7, r2.l7, r3.l7⟩ : V8).get j)))
     (i : Fin 4) :
-    den ((add_avx512__wWW
-        (add_avx512__wWW ⟨r0.l0, r1.l0, r2.l0, r3.l0, r0.l4, r1.l4, r2.l4, r3.l4⟩ ⟨r0.l1, r1.l1, r2.l1, r3.l1, r0.l5, r1.l5, r2.l5, r3.l5⟩)
-        (add_avx512__wWW ⟨r0.l2, r1.l2, r2.l2, r3.l2, r0.l6, r1.l6, r2.l6, r3.l6⟩ ⟨r0.l3, r1.l3, r2.l3, r3.l3, r0.l7, r1.l7, r2.l7, r3.l7⟩)).lo.get i) =
-        dot12 a0.lo a1.lo a2.lo M (12 * i.val) ∧
-    den ((add_avx512__wWW
-        (add_avx512__wWW ⟨r0.l0, r1.l0, r2.l0, r3.l0, r0.l4, r1.l4, r2.l4, r3.l4⟩ ⟨r0.l1, r1.l1, r2.l1, r3.l1, r0.l5, r1.l5, r2.l5, r3.l5⟩)
-        (add_avx512__wWW ⟨r0.l2, r1.l2, r2.l2, r3.l2, r0.l6, r1.l6, r2.l6, r3.l6⟩ ⟨r0.l3, r1.l3, r2.l3, r3.l3, r0.l7, r1.l7, r2.l7, r3.l7⟩)).hi.get i) =
-        dot12 a0.hi a1.hi a2.hi M (12 * i.val) := by
+    den (R.lo.get i) = dot12 a0.lo a1.lo a2.lo M (12 * i.val) ∧
+    den (R.hi.get i) = dot12 a0.hi a1.hi a2.hi M (12 * i.val) := by
   have e3 : ((3 : Fin 4).val) = 3 := rfl
   have a00 := (h0 0).1; have a01 := (h0 1).1; have a02 := (h0 2).1; have a03 := (h0 3).1
   have a10 := (h1 0).1; have a11 := (h1 1).1; have a12 := (h1 2).1; have a13 := (h1 3).1
@@ -155,40 +187,36 @@ theorem rows_sum (a0 a1 a2 : V8) (M : Region) (r0 r1 r2 r3 : V8)
   simp only [V8.lo, V8.hi, V4.get, Fin.val_zero, Fin.val_one, Fin.val_two, e3, Nat.add_zero, Nat.reduceAdd] at a00 a01 a02 a03 a10 a11 a12 a13 a20 a21 a22 a23 a30 a31 a32 a33 b00 b01 b02 b03 b10 b11 b12 b13 b20 b21 b22 b23 b30 b31 b32 b33
   match i with
   | 0 =>
-    have l := add4_den ⟨r0.l0, r1.l0, r2.l0, r3.l0, r0.l4, r1.l4, r2.l4, r3.l4⟩ ⟨r0.l1, r1.l1, r2.l1, r3.l1, r0.l5, r1.l5, r2.l5, r3.l5⟩
-      ⟨r0.l2, r1.l2, r2.l2, r3.l2, r0.l6, r1.l6, r2.l6, r3.l6⟩ ⟨r0.l3, r1.l3, r2.l3, r3.l3, r0.l7, r1.l7, r2.l7, r3.l7⟩
+    have l := hR
     have l0 := l 0; have l4 := l 4
     refine ⟨?_, ?_⟩
-    · show den (V8.get _ 0) = _
+    · show den (V8.get R 0) = _
       rw [l0]; simp only [V8.get]; rw [a00, a01, a02, a03]; simp only [dot12, V8.lo, Fin.val_zero, Nat.mul_zero, Nat.zero_add, Nat.reduceAdd, Nat.reduceMul]; ring
-    · show den (V8.get _ 4) = _
+    · show den (V8.get R 4) = _
       rw [l4]; simp only [V8.get]; rw [b00, b01, b02, b03]; simp only [dot12, V8.hi, Fin.val_zero, Nat.mul_zero, Nat.zero_add, Nat.reduceAdd, Nat.reduceMul]; ring
   | 1 =>
-    have l := add4_den ⟨r0.l0, r1.l0, r2.l0, r3.l0, r0.l4, r1.l4, r2.l4, r3.l4⟩ ⟨r0.l1, r1.l1, r2.l1, r3.l1, r0.l5, r1.l5, r2.l5, r3.l5⟩
-      ⟨r0.l2, r1.l2, r2.l2, r3.l2, r0.l6, r1.l6, r2.l6, r3.l6⟩ ⟨r0.l3, r1.l3, r2.l3, r3.l3, r0.l7, r1.l7, r2.l7, r3.l7⟩
+    have l := hR
     have l0 := l 1; have l4 := l 5
     refine ⟨?_, ?_⟩
-    · show den (V8.get _ 1) = _
+    · show den (V8.get R 1) = _
       rw [l0]; simp only [V8.get]; rw [a10, a11, a12, a13]; simp only [dot12, V8.lo, Fin.val_one, Nat.mul_one, Nat.reduceAdd, Nat.reduceMul]; ring
-    · show den (V8.get _ 5) = _
+    · show den (V8.get R 5) = _
       rw [l4]; simp only [V8.get]; rw [b10, b11, b12, b13]; simp only [dot12, V8.hi, Fin.val_one, Nat.mul_one, Nat.reduceAdd, Nat.reduceMul]; ring
   | 2 =>
-    have l := add4_den ⟨r0.l0, r1.l0, r2.l0, r3.l0, r0.l4, r1.l4, r2.l4, r3.l4⟩ ⟨r0.l1, r1.l1, r2.l1, r3.l1, r0.l5, r1.l5, r2.l5, r3.l5⟩
-      ⟨r0.l2, r1.l2, r2.l2, r3.l2, r0.l6, r1.l6, r2.l6, r3.l6⟩ ⟨r0.l3, r1.l3, r2.l3, r3.l3, r0.l7, r1.l7, r2.l7, r3.l7⟩
+    have l := hR
     have l0 := l 2; have l4 := l 6
     refine ⟨?_, ?_⟩
-    · show den (V8.get _ 2) = _
+    · show den (V8.get R 2) = _
       rw [l0]; simp only [V8.get]; rw [a20, a21, a22, a23]; simp only [dot12, V8.lo, Fin.val_two, Nat.reduceAdd, Nat.reduceMul]; ring
-    · show den (V8.get _ 6) = _
+    · show den (V8.get R 6) = _
       rw [l4]; simp only [V8.get]; rw [b20, b21, b22, b23]; simp only [dot12, V8.hi, Fin.val_two, Nat.reduceAdd, Nat.reduceMul]; ring
   | 3 =>
-    have l := add4_den ⟨r0.l0, r1.l0, r2.l0, r3.l0, r0.l4, r1.l4, r2.l4, r3.l4⟩ ⟨r0.l1, r1.l1, r2.l1, r3.l1, r0.l5, r1.l5, r2.l5, r3.l5⟩
-      ⟨r0.l2, r1.l2, r2.l2, r3.l2, r0.l6, r1.l6, r2.l6, r3.l6⟩ ⟨r0.l3, r1.l3, r2.l3, r3.l3, r0.l7, r1.l7, r2.l7, r3.l7⟩
+    have l := hR
     have l0 := l 3; have l4 := l 7
     refine ⟨?_, ?_⟩
-    · show den (V8.get _ 3) = _
+    · show den (V8.get R 3) = _
       rw [l0]; simp only [V8.get]; rw [a30, a31, a32, a33]; simp only [dot12, V8.lo, e3, Nat.reduceAdd, Nat.reduceMul]; ring
-    · show den (V8.get _ 7) = _
+    · show den (V8.get R 7) = _
       rw [l4]; simp only [V8.get]; rw [b30, b31, b32, b33]; simp only [dot12, V8.hi, e3, Nat.reduceAdd, Nat.reduceMul]; ring
 
 
@@ -206,13 +234,14 @@ theorem spmv512_shift_den (a0 a1 a2 : V8) (M : Region) (off : Nat) (i : Fin 4) :
 theorem mmult512_4x12_den (a0 a1 a2 : V8) (M : Region) (i : Fin 4) :
     den ((mmult_avx512_4x12 a0 a1 a2 M).lo.get i) = dot12 a0.lo a1.lo a2.lo M (12 * i.val) ∧
     den ((mmult_avx512_4x12 a0 a1 a2 M).hi.get i) = dot12 a0.hi a1.hi a2.hi M (12 * i.val) := by
-  have key := rows_sum a0 a1 a2 M (spmv_avx512_4x12 a0 a1 a2 M) (spmv_avx512_4x12 a0 a1 a2 (Region.shift M 12))
+  refine rows_sum a0 a1 a2 M (spmv_avx512_4x12 a0 a1 a2 M) (spmv_avx512_4x12 a0 a1 a2 (Region.shift M 12))
     (spmv_avx512_4x12 a0 a1 a2 (Region.shift M 24)) (spmv_avx512_4x12 a0 a1 a2 (Region.shift M 36))
     (fun k => spmv512_den a0 a1 a2 M k) (fun k => spmv512_shift_den a0 a1 a2 M 12 k)
-    (fun k => spmv512_shift_den a0 a1 a2 M 24 k) (fun k => spmv512_shift_den a0 a1 a2 M 36 k) i
+    (fun k => spmv512_shift_den a0 a1 a2 M 24 k) (fun k => spmv512_shift_den a0 a1 a2 M 36 k) _ ?_ i
+  intro j
   simp only [mmult_avx512_4x12, (transpose8 _ _ _ _).1, (transpose8 _ _ _ _).2.1, (transpose8 _ _ _ _).2.2.1,
-    (transpose8 _ _ _ _).2.2.2]
-  exact key
+    (transpose8 _ _ _ _).2.2.2, den_add_avx512]
+  try ring
 
 theorem mmult512_den (a0 a1 a2 : V8) (M : Region) (i : Fin 4) :
     (den ((mmult_avx512 a0 a1 a2 M).1.lo.get i) = dot12 a0.lo a1.lo a2.lo M (12 * i.val) ∧
@@ -252,60 +281,43 @@ theorem den_mult512_72 (a b : V8) (i : Fin 8) (hb : (b.get i).toNat < 256) :
       Nat.mul_lt_mul'' ha hb
     omega
 
-/-- one lane of spmv_avx512_4x12_8, for coefficient registers with entries below 2^8 -/
-theorem spmv512_8_lane (a0 a1 a2 b0 b1 b2 : V8) (i : Fin 8)
-    (g0 : (b0.get i).toNat < 256) (g1 : (b1.get i).toNat < 256) (g2 : (b2.get i).toNat < 256) :
-    den ((reduce_avx512_96_64
-        (Avx512.add_epi64 (Avx512.add_epi64 (mult_avx512_72 a0 b0).1 (mult_avx512_72 a1 b1).1) (mult_avx512_72 a2 b2).1)
-        (add_avx512__wWW (add_avx512__wWW (mult_avx512_72 a0 b0).2 (mult_avx512_72 a1 b1).2) (mult_avx512_72 a2 b2).2)).get i) =
-      den (a0.get i) * den (b0.get i) + den (a1.get i) * den (b1.get i) + den (a2.get i) * den (b2.get i) := by
-  obtain ⟨m0, n0⟩ := den_mult512_72 a0 b0 i g0
-  obtain ⟨m1, n1⟩ := den_mult512_72 a1 b1 i g1
-  obtain ⟨m2, n2⟩ := den_mult512_72 a2 b2 i g2
-  rw [← m0, ← m1, ← m2]
-  have red := reduce512_96_spec
-    (Avx512.add_epi64 (Avx512.add_epi64 (mult_avx512_72 a0 b0).1 (mult_avx512_72 a1 b1).1) (mult_avx512_72 a2 b2).1)
-    (add_avx512__wWW (add_avx512__wWW (mult_avx512_72 a0 b0).2 (mult_avx512_72 a1 b1).2) (mult_avx512_72 a2 b2).2) i
-  have hsum : ((Avx512.add_epi64 (Avx512.add_epi64 (mult_avx512_72 a0 b0).1 (mult_avx512_72 a1 b1).1)
-      (mult_avx512_72 a2 b2).1).get i).toNat =
-      ((mult_avx512_72 a0 b0).1.get i).toNat + ((mult_avx512_72 a1 b1).1.get i).toNat +
-        ((mult_avx512_72 a2 b2).1.get i).toNat := by
-    simp only [Avx512.add_epi64, V8.get_map2, BitVec.toNat_add]
-    omega
-  rw [hsum] at red
-  have hlt : (((mult_avx512_72 a0 b0).1.get i).toNat + ((mult_avx512_72 a1 b1).1.get i).toNat +
-        ((mult_avx512_72 a2 b2).1.get i).toNat) % 4294967296 =
-      ((mult_avx512_72 a0 b0).1.get i).toNat + ((mult_avx512_72 a1 b1).1.get i).toNat +
-        ((mult_avx512_72 a2 b2).1.get i).toNat := by omega
-  rw [hlt] at red
+/-- reduce_avx512_96_64 in the field view, for a high word known as a natural number below 2^32 (the caller supplies
+  the number; how the register holding it was computed is left to unification) -/
+theorem den_reduce512_96_sum (h l : V8) (i : Fin 8) (t : Nat) (ht : (h.get i).toNat = t) (hlt : t < 4294967296) :
+    den ((reduce_avx512_96_64 h l).get i) = (t : F) * (18446744073709551616 : F) + den (l.get i) := by
+  have red := reduce512_96_spec h l i
+  rw [ht, Nat.mod_eq_of_lt hlt] at red
   rw [den_of_mod _ _ red]
+  unfold den
   push_cast
-  have dl : den ((add_avx512__wWW (add_avx512__wWW (mult_avx512_72 a0 b0).2 (mult_avx512_72 a1 b1).2)
-      (mult_avx512_72 a2 b2).2).get i) =
-      den ((mult_avx512_72 a0 b0).2.get i) + den ((mult_avx512_72 a1 b1).2.get i) + den ((mult_avx512_72 a2 b2).2.get i) := by
-    rw [den_add_avx512, den_add_avx512]
-  unfold den at dl ⊢
-  rw [dl]
-  ring
+  rfl
 
-theorem set4_get_lt (d c b a : BitVec 64) (i : Fin 8) (h : a.toNat < 256 ∧ b.toNat < 256 ∧ c.toNat < 256 ∧ d.toNat < 256) :
-    ((Avx512.set4_epi64 d c b a).get i).toNat < 256 := by
-  match i with
-  | 0 => exact h.1 | 1 => exact h.2.1 | 2 => exact h.2.2.1 | 3 => exact h.2.2.2
-  | 4 => exact h.1 | 5 => exact h.2.1 | 6 => exact h.2.2.1 | 7 => exact h.2.2.2
-
+/-- one lane of spmv_avx512_4x12_8, for coefficients below 2^8 -/
 theorem spmv512_8_lane' (a0 a1 a2 : V8) (b : Region) (i : Fin 8) (hb : ∀ k, k < 12 → (b k).toNat < 256) :
     den ((spmv_avx512_4x12_8 a0 a1 a2 b).get i) =
-      den (a0.get i) * den ((Avx512.set4_epi64 (b 3) (b 2) (b 1) (b 0)).get i) +
-      den (a1.get i) * den ((Avx512.set4_epi64 (b 7) (b 6) (b 5) (b 4)).get i) +
-      den (a2.get i) * den ((Avx512.set4_epi64 (b 11) (b 10) (b 9) (b 8)).get i) := by
-  have := spmv512_8_lane a0 a1 a2 (Avx512.set4_epi64 (b 3) (b 2) (b 1) (b 0)) (Avx512.set4_epi64 (b 7) (b 6) (b 5) (b 4))
-    (Avx512.set4_epi64 (b 11) (b 10) (b 9) (b 8)) i
-    (set4_get_lt _ _ _ _ i ⟨hb 0 (by omega), hb 1 (by omega), hb 2 (by omega), hb 3 (by omega)⟩)
-    (set4_get_lt _ _ _ _ i ⟨hb 4 (by omega), hb 5 (by omega), hb 6 (by omega), hb 7 (by omega)⟩)
-    (set4_get_lt _ _ _ _ i ⟨hb 8 (by omega), hb 9 (by omega), hb 10 (by omega), hb 11 (by omega)⟩)
+      den (a0.get i) * den (b (i.val % 4)) + den (a1.get i) * den (b (4 + i.val % 4)) +
+        den (a2.get i) * den (b (8 + i.val % 4)) := by
+  have hi : i.val % 4 < 4 := Nat.mod_lt _ (by decide)
+  have g0 : ((coef8 b 0).get i).toNat < 256 := by rw [coef8_get]; exact hb _ (by omega)
+  have g1 : ((coef8 b 4).get i).toNat < 256 := by rw [coef8_get]; exact hb _ (by omega)
+  have g2 : ((coef8 b 8).get i).toNat < 256 := by rw [coef8_get]; exact hb _ (by omega)
+  obtain ⟨m0, n0⟩ := den_mult512_72 a0 (coef8 b 0) i g0
+  obtain ⟨m1, n1⟩ := den_mult512_72 a1 (coef8 b 4) i g1
+  obtain ⟨m2, n2⟩ := den_mult512_72 a2 (coef8 b 8) i g2
+  simp only [coef8_get, Nat.zero_add] at m0 m1 m2
+  clear g0 g1 g2 hb hi
+  -- the three 72-bit products: low parts added mod p (in any association), high parts (< 2^8 each) added as
+  -- 64-bit integers (in any association and order), then one 96-bit reduction
   simp only [spmv_avx512_4x12_8]
-  exact this
+  coef_norm
+  rw [den_reduce512_96_sum _ _ i
+    (((mult_avx512_72 a0 (coef8 b 0)).1.get i).toNat + ((mult_avx512_72 a1 (coef8 b 4)).1.get i).toNat +
+      ((mult_avx512_72 a2 (coef8 b 8)).1.get i).toNat)
+    (by simp only [lane_get, toNat_add64]; omega) (by omega)]
+  simp only [den_add_avx512]
+  push_cast
+  rw [← m0, ← m1, ← m2]
+  ring
 
 theorem spmv512_8_den (a0 a1 a2 : V8) (b : Region) (i : Fin 4) (hb : ∀ k, k < 12 → (b k).toNat < 256) :
     den ((spmv_avx512_4x12_8 a0 a1 a2 b).lo.get i) =
@@ -333,15 +345,16 @@ theorem spmv512_8_shift_den (a0 a1 a2 : V8) (M : Region) (off : Nat) (i : Fin 4)
 theorem mmult512_4x12_8_den (a0 a1 a2 : V8) (M : Region) (i : Fin 4) (hb : ∀ k, k < 48 → (M k).toNat < 256) :
     den ((mmult_avx512_4x12_8 a0 a1 a2 M).lo.get i) = dot12 a0.lo a1.lo a2.lo M (12 * i.val) ∧
     den ((mmult_avx512_4x12_8 a0 a1 a2 M).hi.get i) = dot12 a0.hi a1.hi a2.hi M (12 * i.val) := by
-  have key := rows_sum a0 a1 a2 M (spmv_avx512_4x12_8 a0 a1 a2 M) (spmv_avx512_4x12_8 a0 a1 a2 (Region.shift M 12))
+  refine rows_sum a0 a1 a2 M (spmv_avx512_4x12_8 a0 a1 a2 M) (spmv_avx512_4x12_8 a0 a1 a2 (Region.shift M 12))
     (spmv_avx512_4x12_8 a0 a1 a2 (Region.shift M 24)) (spmv_avx512_4x12_8 a0 a1 a2 (Region.shift M 36))
     (fun k => spmv512_8_den a0 a1 a2 M k (fun j hj => hb j (by omega)))
     (fun k => spmv512_8_shift_den a0 a1 a2 M 12 k (fun j hj => hb _ (by omega)))
     (fun k => spmv512_8_shift_den a0 a1 a2 M 24 k (fun j hj => hb _ (by omega)))
-    (fun k => spmv512_8_shift_den a0 a1 a2 M 36 k (fun j hj => hb _ (by omega))) i
+    (fun k => spmv512_8_shift_den a0 a1 a2 M 36 k (fun j hj => hb _ (by omega))) _ ?_ i
+  intro j
   simp only [mmult_avx512_4x12_8, (transpose8 _ _ _ _).1, (transpose8 _ _ _ _).2.1, (transpose8 _ _ _ _).2.2.1,
-    (transpose8 _ _ _ _).2.2.2]
-  exact key
+    (transpose8 _ _ _ _).2.2.2, den_add_avx512]
+  try ring
 
 theorem mmult512_8_den (a0 a1 a2 : V8) (M : Region) (i : Fin 4) (hb : ∀ k, k < 144 → (M k).toNat < 256) :
     (den ((mmult_avx512_8 a0 a1 a2 M).1.lo.get i) = dot12 a0.lo a1.lo a2.lo M (12 * i.val) ∧
